@@ -15,7 +15,17 @@ def do_case(ctx, inp):
     a = inp["ast"]
     o = build(a)
     t = snap(o)
-    n = copy.deepcopy(o).negate()
+    if inp.get("evaluated_first"):
+        # a model that has been asked something before it is negated: evaluation is a pure query (C09), so the negation of
+        # the object is the negation of the model — the negation is taken from the very object that was queried
+        for sg in inp["evaluated_first"]:
+            o.evaluate(dict(sg))
+        ctx.tags["negated-after-evaluations-on-the-same-object"] += 1
+        if snap(o) != t:
+            ctx.fail("model-changed-by-evaluate-before-negation", {"interpretations": inp["evaluated_first"], "now": snap(o)}); return
+        n = o.negate()
+    else:
+        n = copy.deepcopy(o).negate()
     tn = snap(n)
     tg = tags_of(t)
     top_kids = t["kids"]
@@ -127,6 +137,17 @@ def small_scope_cases(ctx):
     ctx.notes.append("exhaustive small scope: every formula with at most two connectives over two boolean leaves")
 
 
+def with_history(ctx, case, t):
+    """in a third of the cases the object is evaluated (total in-bounds assignments, ends of the ranges included) before it is
+    negated"""
+    if ctx.rng.random() < 0.33:
+        lv = leaves_of(t)
+        if lv:
+            case["evaluated_first"] = [{k: ctx.rng.choice([lo, hi, ctx.rng.randint(lo, hi)]) for k, (lo, hi) in lv.items()}
+                                       for _ in range(ctx.rng.randint(1, 2))]
+    return case
+
+
 def run(ctx):
     small_scope_cases(ctx)
     n_models = (150 if ctx.quick else 1200) * (3 if ctx.search else 1)
@@ -142,7 +163,7 @@ def run(ctx):
         do_case(ctx, {"not_of": x})
     for _ in range(n_models):
         a, o, t = gen_valid(ctx.rng, ctx.quick, wide_p=0.02, empty_p=0.04)
-        do_case(ctx, {"ast": a})
+        do_case(ctx, with_history(ctx, {"ast": a}, t))
     for _ in range(n_models):
         for _ in range(20):
             a = gen_mixed(ctx.rng)
@@ -151,6 +172,6 @@ def run(ctx):
             except Exception:
                 continue
             if not is_var(o) and well_formed(snap(o)) and not o.errors():
-                do_case(ctx, {"ast": a})
+                do_case(ctx, with_history(ctx, {"ast": a}, snap(o)))
                 ctx.tags["targeted-mixed-stream"] += 1
                 break
